@@ -1,6 +1,7 @@
 package sim
 
 import (
+	"runtime"
 	"encoding/json"
 	"strings"
 
@@ -108,7 +109,14 @@ func randPlanFaulty(r *Rng, n int) string {
 // adversarial returns programs aimed at the resource clause and at known fragile shapes.
 // resourceAdversarial returns programs aimed at the resource clause (only meaningful, and only
 // generated, when an operation budget is configured).
+// deepSources: very long or deeply nested sources in compact spelling (see ExpandSrc); each costs a
+// noticeable fraction of a second to parse, so they are drawn rarely.
+var deepSources = []string{"@@deep:br:60000", "@@deep:pa:250000", "@@deep:dict:60000", "@@deep:call:60000", "@@deep:tpl:30000", "@@deep:idx:6000", "@@deep:neg:300000", "@@deep:attr:9000", "@@deep:br:3000", "@@deep:pa:20000"}
+
 func resourceAdversarial(r *Rng) string {
+	if r.Chance(1, 12) {
+		return Pick(r, deepSources)
+	}
 	return Pick(r, []string{
 		"a=[1]; b=[1]; i=0; while i<45 { a=[a,a]; b=[b,b]; i=i+1 }; a == b", "a={'k':1}; b={'k':1}; i=0; while i<45 { a={'x':a,'y':a}; b={'x':b,'y':b}; i=i+1 }; a == b", "a=[1]; b=[2]; i=0; while i<45 { a=[a,a]; b=[b,b]; i=i+1 }; a != b",
 		"a=[1]; b=[1]; i=0; while i<45 { a=[a,a,a]; b=[b,b,b]; i=i+1 }; [a] == [b]",
@@ -214,7 +222,21 @@ func c01Exec(raw json.RawMessage, res *RunResult) {
 		if at, ok := sc.CancelAt[i]; ok {
 			m.Budget = at
 		}
+		var ms0, ms1 runtime.MemStats
+		deep := strings.HasPrefix(c.Src, "@@deep:")
+		if deep {
+			runtime.ReadMemStats(&ms0)
+		}
 		o := DoCmd(vm, c)
+		if deep {
+			runtime.ReadMemStats(&ms1)
+			res.Fault("deep_or_long_source")
+			srcLen := len(ExpandSrc(c.Src))
+			if alloc := ms1.TotalAlloc - ms0.TotalAlloc; sc.Cfg.OpLimit > 0 && srcLen < 64<<10 && alloc > 256<<20 {
+				// memory is a resource too: a source of a few KiB must not cost hundreds of MiB to parse
+				res.Violate("resource:parser-allocates-over-256MiB-for-source-under-64KiB", "command %d: parsing a source of %d bytes allocated %d MiB (operation budget configured: %d)\n  src=%q", i, srcLen, alloc>>20, sc.Cfg.OpLimit, c.Src)
+			}
+		}
 		res.Evals++
 		res.Ticks += m.Ticks
 		if m.Cancelled {
